@@ -82,7 +82,7 @@ func c12(tier string) {
 		r := lib.CaseRand(ctx.Seed, 12, i)
 		var prof *lib.ProfileDoc
 		var g *lib.Graph
-		kind := i % 4
+		kind := (i/16 + i) % 4 // varies inside every worker (workers take i = k mod 16)
 		switch kind {
 		case 0:
 			prof, g = c12LevelsCase(r, i)
@@ -184,7 +184,7 @@ func c12(tier string) {
 		}
 		// a burst of validations through one compiled profile (little allocation in between): reports returned
 		// earlier must stay what they were
-		if i%4 == 0 {
+		if (i/16)%2 == 0 {
 			if cp := lib.Compile(ptext, nil); !cp.Failed() {
 				var burst []kept
 				for k := 0; k < 8; k++ {
